@@ -87,6 +87,24 @@ class Dominance:
         return [*self.conds[n], *extra]
 
 
+class _Norm(ast.NodeTransformer):
+    """`a not in b` -> `not (a in b)`, `a != b` -> `not (a == b)`, `a is not b` -> `not (a is b)` so that one atom
+    serves both polarities"""
+
+    def visit_Compare(self, n):
+        self.generic_visit(n)
+        if len(n.ops) == 1 and isinstance(n.ops[0], (ast.NotIn, ast.NotEq, ast.IsNot)):
+            pos = {ast.NotIn: ast.In, ast.NotEq: ast.Eq, ast.IsNot: ast.Is}[type(n.ops[0])]()
+            return ast.UnaryOp(op=ast.Not(), operand=ast.Compare(left=n.left, ops=[pos], comparators=n.comparators))
+        return n
+
+
+def normalize(test):
+    t = _Norm().visit(ast.parse(ast.unparse(test), mode="eval").body)
+    ast.fix_missing_locations(t)
+    return t
+
+
 def atoms_and_eval(conds, atom_of):
     """Build an evaluator for the conjunction of (test, polarity) pairs.  `atom_of(node) -> name | None` names the
     sub-expressions treated as atoms (everything else that is not and/or/not must be an atom, else ValueError).
@@ -112,10 +130,13 @@ def atoms_and_eval(conds, atom_of):
             names.append(k)
         return env.get(k, False)
 
+    conds = [(normalize(t), pol) for t, pol in conds]
+
     def conj(env):
         return all(ev(t, env) == pol for t, pol in conds)
 
-    conj({})  # discover atoms
+    for t, _ in conds:  # discover atoms (no short-circuit)
+        ev(t, {})
     return names, conj
 
 
